@@ -96,6 +96,11 @@ def alphabet():
         'add_iiv': add_iiv, 'rm_iiv': remove_iiv,
         'join_iiv': lambda m: pm.create_joint_distribution(m, individual_estimates=None),
         'split_iiv': pm.split_joint_distribution,
+        # a joint block of the first and the LAST eta: the etas in between are renumbered without their statements changing
+        'join_first_last': lambda m: pm.create_joint_distribution(
+            m, [m.random_variables.etas.names[0], m.random_variables.etas.names[-1]], individual_estimates=None),
+        'join_last_two': lambda m: pm.create_joint_distribution(
+            m, list(m.random_variables.etas.names[-2:]), individual_estimates=None),
         'covariate': covariate, 'fix_first': fix_first, 'set_inits': inits,
         # statements that print as several lines / nodes (cat2: a run of logical IFs) next to edited neighbours
         'cov2_lin': lambda m: pm.add_covariate_effect(m, nth_param_with_eta(m, 1), cov_names(m)[0], 'lin'),
@@ -339,7 +344,10 @@ def main():
     disk = [(s0, h) for s0 in ('disk:fo_abs+cmt', 'disk:fo_abs+periph+cmt')
             for h in ((), ('transits1',), ('transits3',), ('bolus_abs',), ('zo_abs',), ('add_periph',), ('rm_periph',),
                       ('add_lag',), ('transits1', 'add_periph'), ('bolus_abs', 'fo_abs'))]
-    cases = cases[:40] + sib + cov3 + gen + disk + cases[40:]
+    # eta renumbering without statement changes
+    renum = [(s0, h) for s0 in START[:2] for h in (('add_iiv', 'join_first_last'), ('join_first_last',),
+                                                   ('add_iiv', 'join_last_two'), ('join_first_last', 'split_iiv'))]
+    cases = cases[:40] + sib + cov3 + gen + disk + renum + cases[40:]
     nproc = int(os.environ.get('VERIF_JOBS', 0)) or min(16, os.cpu_count() or 4)
     t0 = time.time()
     stats = dict(unsat=0, sat_confirmed=0, sat_unreplayable=0, unknown=0, unsupported=0)
